@@ -37,6 +37,15 @@ fn hex(b: &[u8]) -> String {
     s
 }
 
+/// hex, abbreviated in the middle for long strings
+fn hexs(b: &[u8]) -> String {
+    if b.len() <= 100 {
+        hex(b)
+    } else {
+        format!("{}..[{} bytes]..{}", hex(&b[..8]), b.len(), hex(&b[b.len() - 40..]))
+    }
+}
+
 /// reader that counts the bytes handed out
 struct CountReader<'a> {
     data: &'a [u8],
@@ -655,36 +664,40 @@ impl Cls {
 }
 
 /// common verdict: `res` = outcome of the guarded library call: Ok(Ok((oracle index of the returned
-/// point or None if it is not a curve point, is it the identity, debug text))) / Ok(Err(e)) / Err(panic)
-fn judge_point(
+/// point or None if it is not a curve point, is it the identity, the value))) / Ok(Err(())) / Err(panic).
+/// `sites` = [read_past_advertised_size, panic, checked_returns_invalid_point, checked_accepts_bad_encoding,
+/// infinity_flag_returns_non_identity] (static strings: no allocation on the hot path)
+fn judge_point<T: std::fmt::Debug>(
     loc: &mut Loc,
-    site: &str,
+    sites: &[&str; 5],
     what: &dyn Fn() -> String,
     cls: Cls,
     checked: bool,
     in_subgroup: &dyn Fn(usize) -> bool,
-    res: Result<Result<(Option<usize>, bool, String), String>, String>,
+    res: Result<Result<(Option<usize>, bool, T), ()>, String>,
     consumed: usize,
     advertised: usize,
 ) {
-    loc.check_at(&format!("{site}/read_past_advertised_size"), consumed <= advertised, || format!("{}: consumed {consumed} bytes, advertised size {advertised}", what()));
+    loc.check_at(sites[0], consumed <= advertised, || format!("{}: consumed {consumed} bytes, advertised size {advertised}", what()));
     match res {
-        Err(p) => loc.fail_at(&format!("{site}/panic"), format!("{}: {p}", what())),
-        Ok(Err(_)) => loc.op(),
-        Ok(Ok((idx, is_id, dbg))) => {
+        Err(p) => loc.fail_at(sites[1], format!("{}: {p}", what())),
+        Ok(Err(())) => loc.op(),
+        Ok(Ok((idx, is_id, val))) => {
             if checked {
                 let valid = matches!(idx, Some(i) if in_subgroup(i));
-                loc.check_at(&format!("{site}/checked_returns_invalid_point"), valid, || {
-                    format!("{}: checked deserialization returned {dbg}, which is {} (model class of the input: {cls:?})", what(), if idx.is_none() { "not on the curve" } else { "outside the prime-order subgroup" })
+                loc.check_at(sites[2], valid, || {
+                    format!("{}: checked deserialization returned {val:?}, which is {} (model class of the input: {cls:?})", what(), if idx.is_none() { "not on the curve" } else { "outside the prime-order subgroup" })
                 });
-                loc.check_at(&format!("{site}/checked_accepts_bad_encoding"), !cls.must_reject_checked(), || format!("{}: input of model class {cls:?} accepted as {dbg}", what()));
+                loc.check_at(sites[3], !cls.must_reject_checked(), || format!("{}: input of model class {cls:?} accepted as {val:?}", what()));
             }
             if matches!(cls, Cls::InfinityJunk | Cls::Identity) {
-                loc.check_at(&format!("{site}/infinity_flag_returns_non_identity"), is_id, || format!("{}: infinity flag set but the returned value is {dbg}", what()));
+                loc.check_at(sites[4], is_id, || format!("{}: infinity flag set but the returned value is {val:?}", what()));
             }
         }
     }
 }
+const SW_TOY_SITES: [&str; 5] = ["sw_toy/read_past_advertised_size", "sw_toy/panic", "sw_toy/checked_returns_invalid_point", "sw_toy/checked_accepts_bad_encoding", "sw_toy/infinity_flag_returns_non_identity"];
+const TE_TOY_SITES: [&str; 5] = ["te_toy/read_past_advertised_size", "te_toy/panic", "te_toy/checked_returns_invalid_point", "te_toy/checked_accepts_bad_encoding", "te_toy/infinity_flag_returns_non_identity"];
 
 // ------------------------------------------------------------------------------------------
 // (E) every byte string of every length 0..=L on toy curves
@@ -780,13 +793,13 @@ where
             let mut rd = CountReader::new(b);
             let res = guard(|| {
                 if as_proj {
-                    sw::Projective::<P>::deserialize_with_mode(&mut rd, cm, vm).map(|q| (t.idx_proj(&q), q.z.is_zero(), format!("{q:?}"))).map_err(|e| e.to_string())
+                    sw::Projective::<P>::deserialize_with_mode(&mut rd, cm, vm).map(|q| (t.idx_proj(&q), q.z.is_zero(), (q.x, q.y, q.z))).map_err(|_| ())
                 } else {
-                    sw::Affine::<P>::deserialize_with_mode(&mut rd, cm, vm).map(|a| (t.idx_aff(&a), a.infinity, format!("{a:?}"))).map_err(|e| e.to_string())
+                    sw::Affine::<P>::deserialize_with_mode(&mut rd, cm, vm).map(|a| (t.idx_aff(&a), a.infinity, (a.x, a.y, P::BaseField::from(!a.infinity)))).map_err(|_| ())
                 }
             });
             let consumed = rd.pos;
-            judge_point(loc, "sw_toy", &what, cls, checked, &|i| t.in_subgroup[i], res, consumed, advertised);
+            judge_point(loc, &SW_TOY_SITES, &what, cls, checked, &|i| t.in_subgroup[i], res, consumed, advertised);
         });
     }
 }
@@ -862,13 +875,13 @@ where
             let mut rd = CountReader::new(b);
             let res = guard(|| {
                 if as_proj {
-                    te::Projective::<P>::deserialize_with_mode(&mut rd, cm, vm).map(|q| (t.idx_proj(&q), false, format!("{q:?}"))).map_err(|e| e.to_string())
+                    te::Projective::<P>::deserialize_with_mode(&mut rd, cm, vm).map(|q| (t.idx_proj(&q), false, (q.x, q.y, q.t, q.z))).map_err(|_| ())
                 } else {
-                    te::Affine::<P>::deserialize_with_mode(&mut rd, cm, vm).map(|a| (t.idx_aff(&a), false, format!("{a:?}"))).map_err(|e| e.to_string())
+                    te::Affine::<P>::deserialize_with_mode(&mut rd, cm, vm).map(|a| (t.idx_aff(&a), false, (a.x, a.y, a.x * a.y, P::BaseField::one()))).map_err(|_| ())
                 }
             });
             let consumed = rd.pos;
-            judge_point(loc, "te_toy", &what, cls, checked, &|i| t.in_subgroup[i], res, consumed, advertised);
+            judge_point(loc, &TE_TOY_SITES, &what, cls, checked, &|i| t.in_subgroup[i], res, consumed, advertised);
         });
     }
 }
@@ -912,33 +925,35 @@ where
             }
             (ok, c)
         };
-        let judge = |loc: &mut Loc, site: &str, res: Result<Result<E, String>, String>, consumed: usize| {
-            loc.check_at(&format!("{site}/read_past_advertised_size"), consumed <= total, || format!("{name}/{} input {}: consumed {consumed} > {total}", Fl::NAME, hex(b)));
+        let judge = |loc: &mut Loc, sites: &[&str; 3], res: Result<Result<E, ()>, String>, consumed: usize| {
+            loc.check_at(sites[0], consumed <= total, || format!("{name}/{} input {}: consumed {consumed} > {total}", Fl::NAME, hex(b)));
             match res {
-                Err(p) => loc.fail_at(&format!("{site}/panic"), format!("{name}/{} input {}: {p}", Fl::NAME, hex(b))),
-                Ok(Err(_)) => loc.op(),
+                Err(p) => loc.fail_at(sites[1], format!("{name}/{} input {}: {p}", Fl::NAME, hex(b))),
+                Ok(Err(())) => loc.op(),
                 Ok(Ok(v)) => {
                     let (raw_ok, c) = canonical(&v);
                     let want_c = match want {
                         SDec::Ok(wc, _) => Some(wc),
                         _ => None,
                     };
-                    loc.check_at(&format!("{site}/returned_element_not_below_modulus"), raw_ok && want_c == Some(c), || {
+                    loc.check_at(sites[2], raw_ok && want_c == Some(c), || {
                         format!("{name}/{} input {} (model {want:?}) returned coefficients {:?} (raw limbs below p: {raw_ok})", Fl::NAME, hex(b), &c[..m.d])
                     });
                 }
             }
         };
+        const WF: [&str; 3] = ["field/deserialize_with_flags/read_past_advertised_size", "field/deserialize_with_flags/panic", "field/deserialize_with_flags/returned_element_not_below_modulus"];
+        const WM: [&str; 3] = ["field/deserialize_with_mode/read_past_advertised_size", "field/deserialize_with_mode/panic", "field/deserialize_with_mode/returned_element_not_below_modulus"];
         let mut rd = CountReader::new(b);
-        let res = guard(|| E::deserialize_with_flags::<_, Fl>(&mut rd).map(|(v, _)| v).map_err(|e| e.to_string()));
+        let res = guard(|| E::deserialize_with_flags::<_, Fl>(&mut rd).map(|(v, _)| v).map_err(|_| ()));
         let pos = rd.pos;
-        judge(loc, "field/deserialize_with_flags", res, pos);
+        judge(loc, &WF, res, pos);
         if nb == 0 {
             for (cm, vm) in MODES.iter() {
                 let mut rd = CountReader::new(b);
-                let res = guard(|| E::deserialize_with_mode(&mut rd, *cm, *vm).map_err(|e| e.to_string()));
+                let res = guard(|| E::deserialize_with_mode(&mut rd, *cm, *vm).map_err(|_| ()));
                 let pos = rd.pos;
-                judge(loc, "field/deserialize_with_mode", res, pos);
+                judge(loc, &WM, res, pos);
             }
         }
     });
@@ -1321,7 +1336,7 @@ where
                 for checked in [true, false] {
                     for as_proj in [false, true] {
                         let vm = if checked { Validate::Yes } else { Validate::No };
-                        let what = || format!("{name} {} {} as {} input [{label}; {mutation}] {}", if compress { "compressed" } else { "uncompressed" }, if checked { "checked" } else { "unchecked" }, if as_proj { "Projective" } else { "Affine" }, hex(&input));
+                        let what = || format!("{name} {} {} as {} input [{label}; {mutation}] {}", if compress { "compressed" } else { "uncompressed" }, if checked { "checked" } else { "unchecked" }, if as_proj { "Projective" } else { "Affine" }, hexs(&input));
                         let mut rd = CountReader::new(&input);
                         let res: Result<Result<(AP<P::BaseField>, String), String>, String> = guard(|| {
                             if as_proj {
@@ -1471,7 +1486,7 @@ where
                 for checked in [true, false] {
                     for as_proj in [false, true] {
                         let vm = if checked { Validate::Yes } else { Validate::No };
-                        let what = || format!("{name} {} {} as {} input [{label}; {mutation}] {}", if compress { "compressed" } else { "uncompressed" }, if checked { "checked" } else { "unchecked" }, if as_proj { "Projective" } else { "Affine" }, hex(&input));
+                        let what = || format!("{name} {} {} as {} input [{label}; {mutation}] {}", if compress { "compressed" } else { "uncompressed" }, if checked { "checked" } else { "unchecked" }, if as_proj { "Projective" } else { "Affine" }, hexs(&input));
                         let mut rd = CountReader::new(&input);
                         let res: Result<Result<(Option<(P::BaseField, P::BaseField)>, String), String>, String> = guard(|| {
                             if as_proj {
@@ -1657,9 +1672,9 @@ fn main() {
     fb!(D13, "D13"; D61, "D61"; D127, "D127"; D251, "D251"; D509, "D509"; D8191, "D8191"; D65521, "D65521");
     fb!(F7x2, "Fp2(D7)"; F251x2, "Fp2(D251)"; F7x3, "Fp3(D7)"; F61x3, "Fp3(D61)");
     if ctx.thorough() {
-        field_bytes::<F2039x2, SWFlags>(&mut ctx, "Fp2(D2039)");
+        fb!(F2039x2, "Fp2(D2039)");
     }
-    ctx.bound("bytes_field", "toy fields F_13,61,127,251,509,8191,65521, Fp2 over F_7,F_251 (thorough: F_2039 with SWFlags), Fp3 over F_7,F_61 x {EmptyFlags,TEFlags,SWFlags}: every byte string of every length 0..=L (L <= 3; thorough L <= 4), deserialize_with_flags and the 4 plain modes");
+    ctx.bound("bytes_field", "toy fields F_13,61,127,251,509,8191,65521, Fp2 over F_7,F_251 (thorough: F_2039), Fp3 over F_7,F_61 x {EmptyFlags,TEFlags,SWFlags}: every byte string of every length 0..=L (L <= 3; thorough L <= 4), deserialize_with_flags and the 4 plain modes");
     // ---- (A) shipped curves and pairing outputs
     shipped_cases(&mut ctx);
     std::process::exit(ctx.finish());
